@@ -1,4 +1,6 @@
 #include "subrun.h"
+#include <sys/time.h>
+#include <dlfcn.h>
 #include "wrap.h"
 
 #include <signal.h>
@@ -69,6 +71,29 @@ static void subTerminate() {
   _exit(79);
 }
 
+// gcc links libubsan as a runtime of its own next to libasan, each with its
+// own copy of the report-file state: the path has to be set in both
+void setSanReportPath(const std::string& path) {
+  if (__sanitizer_set_report_path)
+    __sanitizer_set_report_path(path.c_str());
+  static void (*ubsanSet)(const char*) = []() -> void (*)(const char*) {
+    void* h = dlopen("libubsan.so.1", RTLD_NOLOAD | RTLD_LAZY);
+    if (!h)
+      return nullptr;
+    return (void (*)(const char*))dlsym(h, "__sanitizer_set_report_path");
+  }();
+  if (ubsanSet && ubsanSet != __sanitizer_set_report_path)
+    ubsanSet(path.c_str());
+}
+
+void armHangTimers(int cpuSeconds, int wallSeconds) {
+  struct itimerval it;
+  memset(&it, 0, sizeof it);
+  it.it_value.tv_sec = cpuSeconds;
+  setitimer(ITIMER_PROF, &it, nullptr);
+  alarm(wallSeconds);
+}
+
 SubResult runInChild(const Json::Value& plan,
                      const std::function<Json::Value()>& fn, int alarmSeconds) {
   SubResult sr;
@@ -82,10 +107,9 @@ SubResult runInChild(const Json::Value& plan,
   pid_t pid = fork();
   if (pid == 0) {
     close(pfd[0]);
-    alarm(alarmSeconds);
+    armHangTimers(alarmSeconds, alarmSeconds * 15);
     std::set_terminate(subTerminate);
-    if (__sanitizer_set_report_path)
-      __sanitizer_set_report_path(sanBase.c_str());
+    setSanReportPath(sanBase);
     // fresh run state on the same seed (same sim root path => same hashing)
     std::string prop = R.prop;
     uint64_t seed = R.seed;
@@ -123,6 +147,7 @@ SubResult runInChild(const Json::Value& plan,
   std::string sanFile = sanBase + "." + std::to_string(pid);
   std::string san = readWhole(sanFile);
   ::unlink(sanFile.c_str());
+
   std::string termFile = "/dev/shm/oomd-verif/term-" + std::to_string(pid);
   std::string term = readWhole(termFile);
   ::unlink(termFile.c_str());
@@ -141,7 +166,7 @@ SubResult runInChild(const Json::Value& plan,
   } else if (WIFSIGNALED(st)) {
     int sig = WTERMSIG(st);
     sr.crashClause =
-        sig == SIGALRM ? "crash.hang" : "crash.signal-" + std::to_string(sig);
+        (sig == SIGALRM || sig == SIGPROF) ? "crash.hang" : "crash.signal-" + std::to_string(sig);
     sr.crashDetail = strsignal(sig);
   } else if (WIFEXITED(st)) {
     sr.crashClause = "crash.exit-" + std::to_string(WEXITSTATUS(st));
